@@ -565,6 +565,28 @@ def run_check(prop, tier, only=None, jobs=None, seed=0):
 
     # --- witnesses for violations: concrete playback, then native replay
     vio_out = []
+    for h, r, detail in violations:
+        text, wall_pb, rc, note, logpath = run_batch([h], tier, logdir, playback=True)
+        _, res = parse_log(text)
+        pr = res.get(h["full"])
+        vals, failing = ([], None)
+        if pr and pr.get("playback"):
+            vals, failing = decode_playback(pr["playback"])
+        witness = {"property": prop, "harness": h["full"], "harness_name": h["name"], "tier": tier, "failing": detail,
+                   "failing_check": failing, "concrete_vals": vals, "witness_schema": " ".join(h["meta"].get("witness", []) or
+                                                                                               (h.get("parent_meta") or {}).get("witness", [])),
+                   "playback_test": pr.get("playback") if pr else None, "log": logpath}
+        reproduced, rdetail = native_replay(h, witness)
+        witness["native_replay"] = {"reproduced": reproduced, "detail": rdetail}
+        wid = hashlib.sha1(json.dumps([h["full"], detail, vals], sort_keys=True).encode()).hexdigest()[:10]
+        wpath = os.path.join(REPLAY_DIR, "%s-%s-%s.json" % (prop, h["name"], wid))
+        json.dump(witness, open(wpath, "w"), indent=1)
+        if reproduced is False:
+            inconclusive.append((h, "solver witness did not reproduce natively (%s); encoding or stub suspect. witness=%s" % (rdetail, wpath)))
+        else:
+            vio_out.append((h, detail, wpath, reproduced, rdetail))
+            samples.append({"harness": h["full"], "kind": "violation witness", "failing": detail, "replay": wpath,
+                            "reproduced_natively": reproduced})
     if mirsym and mirsym.get("violations"):
         groups = {}
         for v in mirsym["violations"]:
@@ -634,6 +656,10 @@ def run_check(prop, tier, only=None, jobs=None, seed=0):
         return 1
     if inconclusive:
         return 2
+    if any(q["role"] == "main" and q["status"] == "failed" for q in queries):
+        # defensive: a failed harness must never end in exit 0
+        print("VIOLATION property=%s replay=%s" % (prop, os.path.join(EVIDENCE_DIR, prop + ".json")))
+        return 1
     if not os.environ.get("VERIF_KEEP_LOGS"):
         shutil.rmtree(logdir, ignore_errors=True)
     return 0
